@@ -25,6 +25,8 @@ import (
 const (
 	maxArrayLen      = 1024 * 1024
 	maxBulkStringLen = 1024 * 1024 * 512
+	// maxArrayDepth limits how deep non-empty arrays may nest.
+	maxArrayDepth = 32
 )
 
 var (
@@ -38,6 +40,8 @@ var (
 	ErrBadArrayLen = errors.New("bad array len")
 	// ErrBadArrayLenTooLong too long array len
 	ErrBadArrayLenTooLong = errors.New("bad array len, too long")
+	// ErrBadArrayDepth for too deeply nested arrays
+	ErrBadArrayDepth = errors.New("bad array, nested too deeply")
 
 	// ErrBadBulkStringLen for invalid bulk string len
 	ErrBadBulkStringLen = errors.New("bad bulk string len")
@@ -59,8 +63,9 @@ const (
 var CRLF = []byte{CR, LF}
 
 type decoder struct {
-	br  *Reader
-	err error
+	br    *Reader
+	err   error
+	depth int // nesting depth of the array being decoded
 }
 
 func newDecoder(r io.Reader, bufSize int) *decoder {
@@ -230,6 +235,14 @@ func (d *decoder) decodeArray() ([]RespValue, error) {
 		return nil, ErrBadArrayLenTooLong
 	case n == -1:
 		return nil, nil
+	}
+	if n > 0 {
+		// decoding recurses once per level: bound it by a limit, not by the input.
+		if d.depth >= maxArrayDepth {
+			return nil, ErrBadArrayDepth
+		}
+		d.depth++
+		defer func() { d.depth-- }()
 	}
 	array := make([]RespValue, n)
 	for i := range array {
